@@ -184,6 +184,89 @@ theorem mul_spec (hin : EnvIn [a0, a1, a2, a3, a4, b0, b1, b2, b3, b4] Scalar52.
   mul_spec_of_lt a0 a1 a2 a3 a4 b0 b1 b2 b3 b4 hin
     (Nat.mul_lt_mul'' (lt_trans ha (by norm_num [l])) hb)
 
+/-- `Scalar52::montgomery_square(a)` for `a² < 2^260·l`: canonical `out` with `out·2^260 ≡ a² (mod l)` -/
+theorem montgomery_square_spec (hin : EnvIn [a0, a1, a2, a3, a4] Scalar52.pre_montgomery_square)
+    (haa : val52 [a0, a1, a2, a3, a4] * val52 [a0, a1, a2, a3, a4] < 2 ^ 260 * l) :
+    ∃ out, Dalek.Gen.Scalar52.montgomery_square.evalC [a0, a1, a2, a3, a4] = some out ∧
+      Dalek.Gen.Scalar52.montgomery_square.evalW [a0, a1, a2, a3, a4] = out ∧
+      EnvIn out limbs52 ∧ val52 out < l ∧
+      val52 out * 2 ^ 260 % l = val52 [a0, a1, a2, a3, a4] * val52 [a0, a1, a2, a3, a4] % l := by
+  obtain ⟨out, hC, hW, hpost, hZ⟩ := Prog.norm_sound _ _ _ _ montgomery_square_norm_ok _ hin
+  refine ⟨out, hC, hW, EnvIn_of_itvsLe hpost (by decide +kernel), ?_⟩
+  have hl := lim52_of_envIn hin
+  simp only [toZ_cons, toZ_nil] at hZ hl
+  rw [montgomery_square_fn_ok] at hZ
+  obtain ⟨o0, o1, o2, o3, o4, he, -, hcan, hv⟩ := montgomery_square_fn_spec _ _ _ _ _ hl
+    (by rw [repZ_cast5]; exact_mod_cast haa)
+  rw [he] at hZ
+  have h := val_of_toZ hZ.symm
+  rw [← h, repZ_cast5] at hv
+  rw [← h] at hcan
+  exact ⟨by exact_mod_cast hcan.2, nat_mont_mul_of_zmod hv⟩
+
+/-- `Scalar52::square(a)` for `a² < 2^260·l`: the canonical representative of the square -/
+theorem square_spec_of_lt (hin : EnvIn [a0, a1, a2, a3, a4] Scalar52.pre_square)
+    (haa : val52 [a0, a1, a2, a3, a4] * val52 [a0, a1, a2, a3, a4] < 2 ^ 260 * l) :
+    ∃ out, Dalek.Gen.Scalar52.square.evalC [a0, a1, a2, a3, a4] = some out ∧
+      Dalek.Gen.Scalar52.square.evalW [a0, a1, a2, a3, a4] = out ∧
+      EnvIn out limbs52 ∧
+      val52 out = val52 [a0, a1, a2, a3, a4] * val52 [a0, a1, a2, a3, a4] % l := by
+  obtain ⟨out, hC, hW, hpost, hZ⟩ := Prog.norm_sound _ _ _ _ square_norm_ok _ hin
+  refine ⟨out, hC, hW, EnvIn_of_itvsLe hpost (by decide +kernel), ?_⟩
+  have hl := lim52_of_envIn hin
+  simp only [toZ_cons, toZ_nil] at hZ hl
+  rw [square_fn_ok] at hZ
+  obtain ⟨o0, o1, o2, o3, o4, he, -, hv⟩ := square_fn_spec _ _ _ _ _ hl
+    (by rw [repZ_cast5]; exact_mod_cast haa)
+  rw [he] at hZ
+  have h := val_of_toZ hZ.symm
+  rw [hv, repZ_cast5] at h
+  exact nat_emod_of_int (by exact_mod_cast h)
+
+/-- `Scalar52::square(a)` on a canonical input: `a² mod l`, canonical -/
+theorem square_spec (hin : EnvIn [a0, a1, a2, a3, a4] Scalar52.pre_square)
+    (ha : val52 [a0, a1, a2, a3, a4] < l) :
+    ∃ out, Dalek.Gen.Scalar52.square.evalC [a0, a1, a2, a3, a4] = some out ∧
+      Dalek.Gen.Scalar52.square.evalW [a0, a1, a2, a3, a4] = out ∧
+      EnvIn out limbs52 ∧
+      val52 out = val52 [a0, a1, a2, a3, a4] * val52 [a0, a1, a2, a3, a4] % l :=
+  square_spec_of_lt a0 a1 a2 a3 a4 hin (Nat.mul_lt_mul'' (lt_trans ha (by norm_num [l])) ha)
+
+/-- `Scalar52::as_montgomery(a)` for ANY five 52-bit limbs: the canonical representative of `a·2^260` -/
+theorem as_montgomery_spec (hin : EnvIn [a0, a1, a2, a3, a4] Scalar52.pre_as_montgomery) :
+    ∃ out, Dalek.Gen.Scalar52.as_montgomery.evalC [a0, a1, a2, a3, a4] = some out ∧
+      Dalek.Gen.Scalar52.as_montgomery.evalW [a0, a1, a2, a3, a4] = out ∧
+      EnvIn out limbs52 ∧
+      val52 out = val52 [a0, a1, a2, a3, a4] * 2 ^ 260 % l := by
+  obtain ⟨out, hC, hW, hpost, hZ⟩ := Prog.norm_sound _ _ _ _ as_montgomery_norm_ok _ hin
+  refine ⟨out, hC, hW, EnvIn_of_itvsLe hpost (by decide +kernel), ?_⟩
+  have hl := lim52_of_envIn hin
+  simp only [toZ_cons, toZ_nil] at hZ hl
+  rw [as_montgomery_fn_ok] at hZ
+  obtain ⟨o0, o1, o2, o3, o4, he, -, hv⟩ := as_montgomery_fn_spec _ _ _ _ _ hl
+  rw [he] at hZ
+  have h := val_of_toZ hZ.symm
+  rw [hv, repZ_cast5] at h
+  exact nat_emod_of_int (by rw [h, Nat.cast_mul, Nat.cast_pow, Nat.cast_ofNat])
+
+/-- `Scalar52::from_montgomery(a)` for ANY five 52-bit limbs: canonical `out` with `out·2^260 ≡ a (mod l)` -/
+theorem from_montgomery_spec (hin : EnvIn [a0, a1, a2, a3, a4] Scalar52.pre_from_montgomery) :
+    ∃ out, Dalek.Gen.Scalar52.from_montgomery.evalC [a0, a1, a2, a3, a4] = some out ∧
+      Dalek.Gen.Scalar52.from_montgomery.evalW [a0, a1, a2, a3, a4] = out ∧
+      EnvIn out limbs52 ∧ val52 out < l ∧
+      val52 out * 2 ^ 260 % l = val52 [a0, a1, a2, a3, a4] % l := by
+  obtain ⟨out, hC, hW, hpost, hZ⟩ := Prog.norm_sound _ _ _ _ from_montgomery_norm_ok _ hin
+  refine ⟨out, hC, hW, EnvIn_of_itvsLe hpost (by decide +kernel), ?_⟩
+  have hl := lim52_of_envIn hin
+  simp only [toZ_cons, toZ_nil] at hZ hl
+  rw [from_montgomery_fn_ok] at hZ
+  obtain ⟨o0, o1, o2, o3, o4, he, -, hcan, hv⟩ := from_montgomery_fn_spec _ _ _ _ _ hl
+  rw [he] at hZ
+  have h := val_of_toZ hZ.symm
+  rw [← h, repZ_cast5] at hv
+  rw [← h] at hcan
+  exact ⟨by exact_mod_cast hcan.2, nat_mont_of_zmod hv⟩
+
 end
 
 section
